@@ -365,6 +365,16 @@ func init() {
 		ConformanceQuick: 40, ConformanceThorough: 600,
 	})
 	props = append(props, &PropDef{
+		ID: "C15", Title: "Assembler listings reproduce exactly the bytes that were emitted", Level: "model_checking",
+		Solver: "z3-new", Fallbacks: []string{"cvc5"}, TimeoutQuickMs: 20000,
+		Patterns:         []string{"verif/harness/c15"},
+		Jobs:             c15Jobs,
+		Bounds:           []string{"call sequences of at most 2 (thorough 3) calls from a 15-entry alphabet: 1/2/3/4-byte instructions with symbolic operands, labels, label references (relative and absolute), comments of length 0,1,5,119,120,121,200,300, data blocks of 0,1,2,15,16,17,32,33 symbolic bytes; base unset or any bank-contained symbolic base; before and after Finalize", "listings parsed without branching on symbolic characters (punctuation is searched among concrete bytes only, hex digits decoded arithmetically)"},
+		Outside:          []string{"longer sequences (each listed line is rendered independently of the others; argued, not checked)", "mnemonic/operand rendering of text lines (not part of this property)", "label names longer than the listing's column width"},
+		Explanation:      "the harness records what it issued (kind, address, byte range) and walks WriteHexTo/WriteTextTo output with it",
+		ConformanceQuick: 48, ConformanceThorough: 400,
+	})
+	props = append(props, &PropDef{
 		ID: "C17", Title: "15-bit colour packing is lossless and MulDiv scales with saturation", Level: "model_checking",
 		Patterns: []string{"verif/harness/c17"},
 		Jobs: func(tier string) []sym.Job {
@@ -524,6 +534,42 @@ func c06Jobs(tier string) []sym.Job {
 			add("no-references", br, base, oL0, oN, oL1)
 			add("three-references", br, base, oB0, oB0, oJ0, oL0, oB0)
 			add("empty", br, base)
+		}
+	}
+	return js
+}
+
+func c15Jobs(tier string) []sym.Job {
+	var js []sym.Job
+	add := func(ops []int, tbl, base, fin int) {
+		var prog int64
+		name := ""
+		for i := len(ops) - 1; i >= 0; i-- {
+			prog = prog<<4 | int64(ops[i])
+		}
+		for _, o := range ops {
+			name += fmt.Sprintf("%x", o)
+		}
+		js = append(js, job("c15", "Listing", fmt.Sprintf("c15/seq-%s/tbl%d/base%d/fin%d", name, tbl, base, fin), prog, int64(len(ops)), int64(tbl), int64(base), int64(fin)))
+	}
+	for a := 1; a <= 15; a++ {
+		for _, cfg := range [][3]int{{0, 0, 0}, {0, 1, 1}, {1, 1, 0}, {1, 0, 1}} {
+			add([]int{a}, cfg[0], cfg[1], cfg[2])
+		}
+		for b := 1; b <= 15; b++ {
+			add([]int{a, b}, (a+b)%2, a%2, b%2)
+			if tier == "thorough" {
+				add([]int{a, b}, (a+b+1)%2, (a+1)%2, (b+1)%2)
+				for c := 1; c <= 15; c++ {
+					add([]int{a, b, c}, (a+b+c)%2, (a+c)%2, (b+c)%2)
+				}
+			}
+		}
+	}
+	if tier != "thorough" { // a few triples in the quick tier as well
+		for _, t := range [][]int{{5, 14, 6}, {6, 13, 5}, {2, 15, 3}, {7, 9, 5}, {12, 12, 12}, {4, 5, 7}, {14, 1, 14}, {3, 10, 15}} {
+			add(t, 0, 1, 1)
+			add(t, 1, 0, 0)
 		}
 	}
 	return js
